@@ -1,5 +1,5 @@
 (* C05 property theorems: statements + `exact lemma` only. *)
-From CJ Require Import Common.Base C05.Model C05.Proofs.
+From CJ Require Import Common.Base C05.Model C05.Proofs C05.Sched.
 
 (* One direction of the relay delivers exactly the three-line specification [ideal]: the data of
    every Read up to and including the first one that carries an error, cut only by the first
@@ -37,3 +37,64 @@ Theorem C05_half_pipe_closes_both :
     closed_dst (half_pipe_full r w d cdst csrc closer_first) = true.
 Proof. exact torn_down_seq. Qed.
 Print Assumptions C05_half_pipe_closes_both.
+
+(* ---------------- the two-direction relay, for all scripts and ALL schedules ----------------
+   [run (init_cfg g0 su sd) s] is the state after the scheduler has granted the calls of the five
+   threads (Up, Down, their asynchronous source closers, the caller waiting on the WaitGroup) in
+   the order [s]; a schedule entry naming a thread that cannot run is skipped. *)
+
+(* always_torn_down: whenever nothing is left to run, both connections have received Close, both
+   source closers have finished (no goroutine left), the WaitGroup is at zero, the session gauge
+   is back at its previous value and the caller has returned *)
+Theorem C05_always_torn_down :
+  forall g0 su sd s,
+    let c := run (init_cfg g0 su sd) s in
+    finished c = true ->
+    closedA c = true /\ closedB c = true /\ wg c = O /\ gauge c = g0 /\
+    clU c = CDone /\ clD c = CDone /\ main c = MDone.
+Proof. exact relay_torn_down. Qed.
+Print Assumptions C05_always_torn_down.
+
+(* ... no schedule can get stuck before that point ... *)
+Theorem C05_no_deadlock :
+  forall g0 su sd s,
+    let c := run (init_cfg g0 su sd) s in
+    finished c = false -> exists t, enabled c t = true.
+Proof. exact relay_no_deadlock. Qed.
+Print Assumptions C05_no_deadlock.
+
+(* ... every schedule makes at most [measure] effective steps (so every fair schedule ends) ... *)
+Theorem C05_terminates_within_bound :
+  forall g0 su sd s, (effective (init_cfg g0 su sd) s <= measure (init_cfg g0 su sd))%nat.
+Proof. exact relay_bounded. Qed.
+Print Assumptions C05_terminates_within_bound.
+
+(* ... and after any prefix the run can be completed (by the round robin the driver uses) *)
+Theorem C05_every_prefix_completes :
+  forall g0 su sd s,
+    let c := run (init_cfg g0 su sd) s in
+    finished (run c (round_robin (measure c))) = true.
+Proof. exact always_completes. Qed.
+Print Assumptions C05_every_prefix_completes.
+
+(* delivered_is_prefix_and_complete / counts_equal_delivered inside the relay: under every schedule
+   each direction delivers [ideal] of the results its own calls returned (including the
+   "use of closed connection" results caused by the other direction's teardown) *)
+Theorem C05_relay_delivers_ideal :
+  forall g0 su sd s,
+    let c := run (init_cfg g0 su sd) s in
+    finished c = true ->
+    delivered (th_acc (up c)) = ideal (th_rlog (up c)) (th_wlog (up c)) (th_dlog (up c)) /\
+    delivered (th_acc (down c)) = ideal (th_rlog (down c)) (th_wlog (down c)) (th_dlog (down c)) /\
+    counted (th_acc (up c)) = N.of_nat (length (delivered (th_acc (up c)))) /\
+    counted (th_acc (down c)) = N.of_nat (length (delivered (th_acc (down c)))).
+Proof. exact relay_delivers. Qed.
+Print Assumptions C05_relay_delivers_ideal.
+
+Theorem C05_relay_counts_at_every_moment :
+  forall g0 su sd s,
+    let c := run (init_cfg g0 su sd) s in
+    counted (th_acc (up c)) = N.of_nat (length (delivered (th_acc (up c)))) /\
+    counted (th_acc (down c)) = N.of_nat (length (delivered (th_acc (down c)))).
+Proof. exact relay_counts_always. Qed.
+Print Assumptions C05_relay_counts_at_every_moment.
